@@ -24,9 +24,10 @@ type H struct {
 	After    [][]string `json:"after"`     // insertions after the transfer
 	Transfer bool       `json:"transfer"`  // move leadership before the later insertions
 	Restart  bool       `json:"restart_x"` // restart the restored node afterwards (restored state must also be durable)
+	Crash    bool       `json:"crash_all"` // SIGKILL the process holding all replicas after the transfer and restart them (transferred state must be durable)
 }
 
-const rule = "a 3-node cluster (one executor child) with log compaction forced: insertions, a follower X goes down (Close) at a drawn point, more insertions, a raft snapshot is forced on every remaining node with TrailingLogs=0 (the entries X misses are gone from the leader's log), then X restarts and/or a brand-new node joins: both must be brought up to date by state transfer (InstallSnapshot -> FSM.Restore -> WAL shipping from the leader). After quiescence (<=60 s) C06's oracle runs on every replica (same applied state, byte-identical tables, proofs verifying against the snapshots the leaders returned); then MORE insertions are made (optionally after a leadership transfer, optionally after restarting the restored node) and the oracle runs again, because stale in-memory structures only show on later inserts and queries. Non-trivial: compaction really removed entries the returning/new node needed (its next index < leader's first log index) and >=1 insertion follows the transfer. distinct = FNV-64 of the history."
+const rule = "a 3-node cluster (one executor child) with log compaction forced: insertions, a follower X goes down (Close) at a drawn point, more insertions, a raft snapshot is forced on every remaining node with TrailingLogs=0 (the entries X misses are gone from the leader's log), then X restarts and/or a brand-new node joins: both must be brought up to date by state transfer (InstallSnapshot -> FSM.Restore -> WAL shipping from the leader). After quiescence (<=60 s) C06's oracle runs on every replica (same applied state, byte-identical tables, proofs verifying against the snapshots the leaders returned); then MORE insertions are made (optionally after a leadership transfer, optionally after restarting the restored node, optionally after a SIGKILL of all replicas and their restart) and the oracle runs again, because stale in-memory structures only show on later inserts and queries. Non-trivial: compaction really removed entries the returning/new node needed (its next index < leader's first log index) and >=1 insertion follows the transfer. distinct = FNV-64 of the history."
 
 func drawAdds(rt *rapid.T, label string, min, max int, seq *int) [][]string {
 	var out [][]string
@@ -49,6 +50,9 @@ func TestStateTransfer(t *testing.T) {
 		h.Before = drawAdds(rt, "before", 0, 4, &seq)
 		h.Down = rapid.IntRange(0, 1).Draw(rt, "down")
 		h.While = drawAdds(rt, "while", 1, 5, &seq)
+		if rapid.Bool().Draw(rt, "first-missed-single") {
+			h.While[0] = h.While[0][:1]
+		}
 		switch rapid.IntRange(0, 3).Draw(rt, "who") {
 		case 0:
 			h.NewNode = true
@@ -58,6 +62,7 @@ func TestStateTransfer(t *testing.T) {
 		h.After = drawAdds(rt, "after", 1, 4, &seq)
 		h.Transfer = rapid.IntRange(0, 2).Draw(rt, "transfer") == 0
 		h.Restart = rapid.IntRange(0, 3).Draw(rt, "restart") == 0
+		h.Crash = rapid.IntRange(0, 2).Draw(rt, "crash") == 0
 		return h
 	}, exec)
 }
@@ -69,11 +74,12 @@ func exec(h H, rec *pbt.Rec) error {
 	if err != nil {
 		return unsettled("executor: %v", err)
 	}
-	defer x.Kill()
 	c, err := rig.NewCluster(x, 3, xp.NodeOpts{TimeoutMs: 300, SnapshotThreshold: 1 << 30, TrailingLogs: 0})
 	if err != nil {
+		x.Kill()
 		return unsettled("cluster boot: %v", err)
 	}
+	defer func() { c.X.Kill() }()
 	dead := func(err error) bool { _, ok := err.(*rig.Death); return ok }
 	add := func(bs [][]string, phase string) error {
 		for _, b := range bs {
@@ -161,6 +167,19 @@ func exec(h H, rec *pbt.Rec) error {
 	}
 	if err := check(fmt.Sprintf("after state transfer to %v", restored)); err != nil {
 		return err
+	}
+	if h.Crash {
+		// x is owned by the cluster from here on (CrashAll replaces the child)
+		if err := c.CrashAll(); err != nil {
+			if dead(err) {
+				return fmt.Errorf("after a crash of all replicas (SIGKILL) following the state transfer to %v, the cluster cannot be restarted: %v", restored, err)
+			}
+			return unsettled("crash-all: %v", err)
+		}
+		rec.Class("crash-all-after-transfer", 1)
+		if err := check(fmt.Sprintf("after SIGKILL of all replicas and restart (state had been transferred to %v)", restored)); err != nil {
+			return err
+		}
 	}
 	if h.Restart {
 		for _, nm := range restored {
